@@ -82,7 +82,7 @@ type Verdict struct {
 	Changed  bool // output differs from input
 }
 
-var expRe = regexp.MustCompile(`[0-9.][eE][+-]?[0-9]`)
+var urangeDeclRe = regexp.MustCompile(`(?i)unicode-range\s*:[^;}]*`)
 
 func hasExponentNumber(toks []Tok) bool {
 	for _, t := range toks {
@@ -126,8 +126,9 @@ func Evaluate(input string, cfg Config, strict bool) Verdict {
 	}
 	// C16: KeepCSS2 forbids exponent notation that the input did not have
 	if cfg.Keep {
-		ot := Tokenize(preprocess(out))
-		if hasExponentNumber(ot) && !hasExponentNumber(Tokenize(preprocess(input))) {
+		// (unicode-range values such as U+3E-3F only look like numbers to a css-syntax-3 tokenizer)
+		ot := Tokenize(preprocess(urangeDeclRe.ReplaceAllString(out, "")))
+		if hasExponentNumber(ot) && !hasExponentNumber(Tokenize(preprocess(urangeDeclRe.ReplaceAllString(input, "")))) {
 			v.Finding = &Finding{Kind: "option", Sig: "keepcss2:exponent-introduced", InPart: input, OutPart: out}
 			return v
 		}
